@@ -155,9 +155,11 @@ package cache
 //@ func deltaSecondsArgument
 //@   ensures result1 == nil ==> 0 - 1 <= result0 && result0 <= 2147483647
 //@   ensures result1 == nil ==> arg.present && len(arg.text) > 0
+//@   ensures {only.ascii.digits.accepted} result1 == nil ==> (forall k in 0..len(arg.text) :: 48 <= arg.text[k] && arg.text[k] <= 57)
 //@   pure
 //@   loop 0:
 //@     invariant 0 <= i && i <= len(arg.text)
+//@     invariant forall k in 0..i :: 48 <= arg.text[k] && arg.text[k] <= 57
 //@     decreases len(arg.text) - i
 
 //@ func newLexer
